@@ -213,7 +213,7 @@ def check_jitter(ctx):
         init = [n for n in own_nodes(f.node) if isinstance(n, ast.Assign) and norm.is_name(n.targets[0], L)]
         oki = len(init) == 1 and isinstance(init[0].value, ast.List) and not init[0].value.elts
         inloop = [a for a in apps if enclosing_for(a, f.node) is rl]
-        after = [a for a in apps if enclosing_for(a, f.node) is None and a.lineno > rl.lineno]
+        after = [a for a in apps if enclosing_for(a, f.node) is None and before(f, rl, a)]
         entries_ok = all(isinstance(a.args[0], ast.Tuple) and len(a.args[0].elts) == 2 for a in apps)
         okflush = len(after) == 1 and norm.entails(g.facts_at(after[0]), ("truth", norm.U(after[0].args[0].elts[1]), True)) if after and entries_ok else False
         if okflush:
@@ -222,11 +222,11 @@ def check_jitter(ctx):
             fs2 = IN.get(sid)
             okflush = fs2 is None or norm.entails(fs2, ("truth", norm.U(after[0].args[0].elts[1]), False))
         ctx.ob(6, "K16", "pipelines are collected in a list, in file order, and the last pipeline is flushed after the loop (none is lost, none merged)",
-               oki and len(inloop) == 1 and okflush and entries_ok and after[0].lineno < sorts[0].lineno if (after and sorts) else False, f, after[0] if after else rl,
+               oki and len(inloop) == 1 and okflush and entries_ok and before(f, after[0], sorts[0]) if (after and sorts) else False, f, after[0] if after else rl,
                construct="collect + flush", detail=f"list initialised empty: {oki}; appends in the loop: {len(inloop)}; flush after the loop under non-empty rows: {okflush}")
         # (arrival, rows) entries: rows list gets every row of the pipeline
         # writing
-        wl = [n for n in own_nodes(f.node) if isinstance(n, ast.For) and norm.is_name(n.iter, L) and n.lineno > sorts[0].lineno] if sorts else []
+        wl = [n for n in own_nodes(f.node) if isinstance(n, ast.For) and norm.is_name(n.iter, L) and before(f, sorts[0], n)] if sorts else []
         okw = False
         if len(wl) == 1 and isinstance(wl[0].target, ast.Tuple) and len(wl[0].target.elts) == 2:
             rowsv = wl[0].target.elts[1].id
